@@ -514,6 +514,55 @@ func ruleTabKeyAlg(c *Ctx, r *Rep) {
 			bits[k] = vals[0]
 		}
 	}
+	// which generator a key algorithm reaches: the RSA one exactly for the RSA algorithms, the EC one exactly for the others
+	// (evaluated through the branch on the key kind, in the generator function or in the caller that picks a helper)
+	var feasibleFor func(f *ssa.Function, b *ssa.BasicBlock, k int64, d int) bool
+	feasibleFor = func(f *ssa.Function, b *ssa.BasicBlock, k int64, d int) bool {
+		p := algParamOf(f)
+		if p == nil {
+			return true
+		}
+		if !blockFeasibleUnder(c, ev, b, map[*ssa.Parameter]int64{p: k}) {
+			return false
+		}
+		if f.Object() != nil && f.Object().Exported() || d > 3 {
+			return true
+		}
+		// an unexported helper: feasible if some call of it is
+		n, any := 0, false
+		for _, caller := range c.Funcs {
+			for _, ci := range callsIn(caller) {
+				if ci.Common().StaticCallee() != f {
+					continue
+				}
+				n++
+				if feasibleFor(caller, ci.Block(), k, d+1) {
+					any = true
+				}
+			}
+		}
+		return n == 0 || any
+	}
+	ecSites := c.funcsCalling("crypto/ecdsa.GenerateKey")
+	for k, kind := range kinds {
+		rsaReached, ecReached := false, false
+		for f, cis := range gen {
+			for _, ci := range cis {
+				if feasibleFor(f, ci.Block(), k, 0) {
+					rsaReached = true
+				}
+			}
+		}
+		for f, cis := range ecSites {
+			for _, ci := range cis {
+				if feasibleFor(f, ci.Block(), k, 0) {
+					ecReached = true
+				}
+			}
+		}
+		name := sprintf("%d", k)
+		r.Check(rsaReached == (kind == "rsa") && ecReached == (kind == "ec"), "generator-kind|"+name, c.FnPos(genFn), "a key algorithm of kind "+kind+" reaches the generator of that kind and not the other", sprintf("rsa generator reached: %v, ec generator reached: %v", rsaReached, ecReached))
+	}
 	// the EC generator: ecdsa.GenerateKey's curve argument is a lookup in the curves table by the key-algorithm parameter
 	ecGen := c.funcsCalling("crypto/ecdsa.GenerateKey")
 	okLookup := false
